@@ -82,7 +82,12 @@ func dr(args map[string]string) error {
 		ctx, cancel := context.WithCancel(context.Background())
 		cluster := mockcluster.NewCluster(ctx, config.NewTestOptions())
 		primary := []uint64{1, 2, 3}
-		drs := []uint64{4, 5}
+		drs := []uint64{4, 5, 6}
+		// every replica layout from 1+1 to 3+3 (the majority rule differs for even totals)
+		prep, drep := 2, 1
+		if rng.Intn(3) != 0 {
+			prep, drep = 1+rng.Intn(3), 1+rng.Intn(3)
+		}
 		for _, id := range primary {
 			cluster.AddLabelsStore(id, 1, map[string]string{"zone": "zone1"})
 		}
@@ -96,7 +101,7 @@ func dr(args map[string]string) error {
 			wat = time.Hour
 		}
 		conf := config.ReplicationModeConfig{ReplicationMode: "dr-auto-sync", DRAutoSync: config.DRAutoSyncReplicationConfig{
-			LabelKey: "zone", Primary: "zone1", DR: "zone2", PrimaryReplicas: 2, DRReplicas: 1,
+			LabelKey: "zone", Primary: "zone1", DR: "zone2", PrimaryReplicas: prep, DRReplicas: drep,
 			WaitStoreTimeout: typeutil.Duration{Duration: time.Minute}, WaitSyncTimeout: typeutil.Duration{Duration: time.Minute},
 			WaitAsyncTimeout: typeutil.Duration{Duration: wat}}}
 		fk := faultkv.New(kv.NewMemoryKV(), nil)
@@ -170,6 +175,7 @@ func dr(args map[string]string) error {
 				}
 			}
 			ev["down_p"], ev["down_d"], ev["timeout_passed"] = dp, dd, timeoutPassed
+			ev["prep"], ev["drep"] = prep, drep
 			if !isBig {
 				rs := [][]interface{}{}
 				for _, r := range cluster.GetRegions() {
